@@ -22,7 +22,10 @@ package router
 // that {"type":"http","url":...} - no data, a stray field - does not route (C08: no task that can never be delivered)
 //@ abstract-calls force ^DisallowUnknownFields$
 //@ site return assert [C19 C08] has_key(p.Tags, config.Key) && jsonvalid(p.Tags[config.Key]) ==> calls("DisallowUnknownFields") == 1
-//@ requires [captured] config != nil
+// ASSUMED (operator configuration, not client input): the data of a configured tag source is a JSON object; with
+// "data": null router.New builds the source from a nil configuration and the first routed promise dereferences
+// it on the router worker. The properties do not quantify over configuration files; listed as an assumption.
+//@ requires [captured config] config != nil
 //@ requires p != nil && p.Tags != nil
 //@ ensures result1 ==> result0 != nil
 // the routing decision (C19): no tag, no match; a tag that is not JSON is kept as a logical name; a tag that
